@@ -307,9 +307,9 @@ Proof.
   destruct n; [contradiction|reflexivity].
 Qed.
 
-Lemma check_expr_wrapped e : wrapped e -> check_expr e = e /\ exists e', e = ch_lp :: e'.
+Lemma check_expr_wrapped e : wrapped e -> Schema.may_wrap e = e -> check_expr e = e /\ exists e', e = ch_lp :: e'.
 Proof.
-  intros (b & p & -> & _). split; [|eauto].
+  intros (b & p & -> & _) Hm. split; [|eauto].
   unfold check_expr, trim_space.
   assert (skip_while is_go_space (ch_lp :: b ++ [ch_rp]) = ch_lp :: b ++ [ch_rp]) as -> by reflexivity.
   assert (rev (ch_lp :: b ++ [ch_rp]) = ch_rp :: rev b ++ [ch_lp]) as ->.
@@ -317,14 +317,11 @@ Proof.
   assert (skip_while is_go_space (ch_rp :: rev b ++ [ch_lp]) = ch_rp :: rev b ++ [ch_lp]) as -> by reflexivity.
   assert (rev (ch_rp :: rev b ++ [ch_lp]) = ch_lp :: b ++ [ch_rp]) as ->.
   { simpl. rewrite rev_app_distr, rev_involutive. reflexivity. }
-  unfold starts_lp, ends_rp.
-  assert (rev (ch_lp :: b ++ [ch_rp]) = ch_rp :: rev b ++ [ch_lp]) as ->.
-  { simpl. rewrite rev_app_distr. reflexivity. }
-  reflexivity.
+  exact Hm.
 Qed.
 
 Definition check_ok (k : option bytes * bytes) : Prop :=
-  (match fst k with Some n => name_ok n | None => True end) /\ wrapped (snd k).
+  (match fst k with Some n => name_ok n | None => True end) /\ wrapped (snd k) /\ Schema.may_wrap (snd k) = snd k.
 
 Lemma match_kw_printed e' tail :
   match_check_kw (K_CHECK ++ ch_sp :: (ch_lp :: e') ++ tail) = Some ((ch_lp :: e') ++ tail).
@@ -333,8 +330,8 @@ Proof. unfold match_check_kw. rewrite lit_ci_self. reflexivity. Qed.
 Lemma match_at_printed k tail : check_ok k ->
   match_check_at (print_check k ++ tail) = Some (fst k, snd k ++ tail).
 Proof.
-  destruct k as [[n|] e]; intros [Hn He]; simpl in Hn, He;
-    destruct (check_expr_wrapped e He) as (Hce & e' & He'); unfold print_check; simpl fst; simpl snd; rewrite Hce.
+  destruct k as [[n|] e]; intros [Hn [He Hmw]]; simpl in Hn, He, Hmw;
+    destruct (check_expr_wrapped e He Hmw) as (Hce & e' & He'); unfold print_check; simpl fst; simpl snd; rewrite Hce.
   - unfold match_check_at, match_named_check.
     repeat rewrite <- app_assoc. rewrite lit_ci_self.
     change ([ch_sp] ++ bt_ident n ++ [ch_sp] ++ K_CHECK ++ [ch_sp] ++ e ++ tail)
@@ -369,7 +366,7 @@ Proof.
     destruct (print_check k ++ tail) eqn:E.
     - pose proof (match_at_printed k tail Hk) as H. rewrite E in H. discriminate.
     - cbn [find_check]. rewrite <- E. rewrite (match_at_printed k tail Hk). reflexivity. }
-  rewrite Hf. destruct Hk as [_ Hw].
+  rewrite Hf. destruct Hk as [_ [Hw _]].
   rewrite (scan_expr_wrapped _ tail Hw).
   rewrite skipn_app, skipn_all, Nat.sub_diag. simpl skipn. cbn [app].
   destruct (x ++ sep ++ print_check k ++ tail) eqn:E.
